@@ -279,8 +279,9 @@ P("C13", "proof", "Lean 4 byte-level theorem (cut at the end of the stem) + mode
   "characters next to every cut.",
   theorems=["TP.C13c.win_set_ext_comps_verbatim", "TP.C13.set_ext_bytes", "TP.C13.set_ext_cut_boundary", "TP.C13.set_ext_false", "TP.C13.set_ext_true_iff", "TP.C13.set_ext_total",
             "TP.C13.set_ext_tokens", "TP.C12b.unix_set_ext_comps", "TP.C12b.unix_set_ext_name_parent", "TP.C14.set_extension_valid",
-            "TP.C13b.win_set_ext_comps", "TP.C13b.win_set_ext_name_parent", "TP.C13b.set_ext_tokens2", "TP.C07.setExtension_trailing_sep", "TP.C07.step_preserves"],
-  modules=["TypedPathVerif.Props.C13c", "TypedPathVerif.Props.C12b", "TypedPathVerif.Props.C14", "TypedPathVerif.Props.C13b", "TypedPathVerif.Props.C07"],
+            "TP.C13b.win_set_ext_comps", "TP.C13b.win_set_ext_name_parent", "TP.C13b.set_ext_tokens2", "TP.C07.setExtension_trailing_sep", "TP.C07.step_preserves",
+            "TP.C13d.win_set_ext_comps_verbatim_of_stable", "TP.C13d.win_set_ext_comps_noshare"],
+  modules=["TypedPathVerif.Props.C13c", "TypedPathVerif.Props.C12b", "TypedPathVerif.Props.C14", "TypedPathVerif.Props.C13b", "TypedPathVerif.Props.C07", "TypedPathVerif.Props.C13d"],
   rule=NONTRIV + "(path, extension) pairs; non-trivial = file name followed by separators or `.`", design_ref="§5 C13")
 
 P("C14", "proof", "Lean 4 theorems (UTF-8 validity is preserved by every byte-level operation and mutation history; the UTF-8 family's own dot split and validity over characters = the byte family's) + character-level model vs Utf8Path (u8dot / u8valid) + UTF-8 family vs byte family transcripts (delegation) + model/code correspondence; thorough tier: measured function coverage of the UTF-8 source files by the harness",
@@ -356,8 +357,9 @@ P("C16", "proof", "Lean 4 theorems (same-encoding clauses; Windows->Unix structu
             "TP.C16c.conv_w2u_prefixed", "TP.C16c.convFold_list",
             "TP.C16d.conv_checked_ok_eq_unchecked", "TP.C16d.conv_checked_same_valid", "TP.C16d.conv_checked_fails_on_name", "TP.C16d.conv_checked_fails_forbidden", "TP.C16d.push_checked_rejects_forbidden",
             "TP.C16e.conv_checked_u2w_valid", "TP.C16e.conv_checked_w2u_valid", "TP.C16e.conv_checked_w2u_prefixed_valid",
-            "TP.C16f.conv_w2u_verbatim", "TP.C16f.conv_checked_w2u_verbatim_valid"],
-  modules=["TypedPathVerif.Props.C16b", "TypedPathVerif.Props.C16c", "TypedPathVerif.Props.C16d", "TypedPathVerif.Props.C16e", "TypedPathVerif.Props.C16f"],
+            "TP.C16f.conv_w2u_verbatim", "TP.C16f.conv_checked_w2u_verbatim_valid",
+            "TP.C16g.conv_w2u_verbatim_of_stable", "TP.C16g.conv_checked_w2u_verbatim_valid_of_stable"],
+  modules=["TypedPathVerif.Props.C16b", "TypedPathVerif.Props.C16c", "TypedPathVerif.Props.C16d", "TypedPathVerif.Props.C16e", "TypedPathVerif.Props.C16f", "TypedPathVerif.Props.C16g"],
   rule=NONTRIV + "strings over {\\ / : . a}, forbidden-byte alphabet, prefix seeds; non-trivial = prefix or >= 2 components", design_ref="§5 C16")
 
 P("C17", "proof", "tables regenerated from the source + Lean 4 theorems (decide over the whole tables, validity lemmas) + correspondence",
